@@ -76,7 +76,8 @@ def collision_knobs(rng):
             "dirs": rng.choice([["src"], ["src", "src/sub1", "src/sub2"]]),
             "filename": (lambda r, i: r.choice(["x.f90", "X.f90", f"f{i}.f90", "y.F90", "y.f90"])),
             "modname": (lambda r, i, j: r.choice(["mod", "Mod", f"m{i}", "solver"])),
-            "p_operator": 0.6, "p_generic": 0.6, "unnamed_programs": True, "p_internal": 0.4}
+            "p_operator": 0.6, "p_generic": 0.6, "unnamed_programs": True, "p_internal": 0.4,
+            "p_submodule": rng.choice([0.0, 0.25])}
 
 
 def walk_ford(project):
